@@ -57,6 +57,16 @@ let put_res f = function
   | Panic -> A "panic"
 
 
+(* ---- shapes (C19) ---- *)
+let rec get_json = function
+  | A "null" -> JNull
+  | L [A "b"; b] -> JBool (get_bool b)
+  | L [A "n"; n] -> JNum (get_n n)
+  | L [A "s"; s] -> JStr (get_bytes s)
+  | L (A "a" :: l) -> JArr (List.map get_json l)
+  | L (A "o" :: l) -> JObj (List.map (function L [k; v] -> (get_bytes k, get_json v) | _ -> failwith "kv") l)
+  | _ -> failwith "json expected"
+
 (* ---- clap model / wrappers (C20) ---- *)
 let put_perr = function
   | EUnknownSubcommand -> L [A "UnknownSubcommand"]
@@ -288,6 +298,12 @@ let dispatch (req : Sexp.t) : Sexp.t =
         let l = get_list (function L [p; d] -> { en_path = get_path p; en_dir = get_bool d } | _ -> failwith "entry") l in
         let rs = plan_listing (name_by_map m) (get_bool rf) (get_bool rd) l in
         put_list (fun r -> L [put_path r.ar_path; put_path r.ar_new; put_bool r.ar_dir]) rs
+      | "enc_plan_generic", [p] -> put_opt put_json (enc_plan_generic (get_plan p))
+      | "conforms_named", [n; j] -> put_bool (conforms_named (get_bytes n) (get_json j))
+      | "conforms_expect", [n; j] -> put_opt put_bool (conforms_expect (get_bytes n) (get_json j))
+      | "compat_named", [r; t] -> put_bool (compat_named (get_bytes r) (get_bytes t))
+      | "rdef_keys", [n] -> put_list (fun (k, b) -> L [put_bytes k; put_bool b]) (rdef_keys (get_bytes n))
+      | "compat_expect", [n] -> put_opt put_bool (compat_expect (get_bytes n))
       | "clap_accepts", [argv] -> put_pres (clap_accepts (get_list get_bytes argv))
       | "wrapper_names", [] ->
         put_list (fun ((n, _), fs) -> L [put_bytes n; put_int (List.length (all_opts fs))]) gen_builders
